@@ -34,5 +34,7 @@ c_CombosGraph == {<<"", s>> : s \in c_Scopes} \cup {<<"t='x'", Sc("a", {"r", "q"
 
 c_OpsPlain == {"Add", "Batch", "Import", "Delete", "Vacuum", "Refine", "Compress", "Restart"}
 c_OpsNoCompress == {"Add", "Batch", "Import", "Delete", "Vacuum", "Refine", "Restart"}
+c_OpsTiny == {"Add", "Batch", "Delete", "Vacuum"}
+c_CombosTiny == {<<"", NoScope>>, <<"t='x'", NoScope>>, <<"", Sc("a", {"r"}, "out", 1)>>}
 c_OpsGraph == {"Add", "Batch", "Delete", "Vacuum", "Restart", "Link"}
 =============================================================================
